@@ -71,7 +71,7 @@ BarnettSmartVTMF_dlog_GroupQR::BarnettSmartVTMF_dlog_GroupQR
 		mpz_clear(foo);
 	}
 	else
-		mpz_set(g, 0L); // indicates an error
+		mpz_set_ui(g, 0L); // indicates an error
 	
 	// Precompute the $g$-table for the fast exponentiation.
 	tmcg_mpz_fpowm_precompute(fpowm_table_g, g, p, mpz_sizeinbase(q, 2L));
@@ -98,7 +98,7 @@ BarnettSmartVTMF_dlog_GroupQR::BarnettSmartVTMF_dlog_GroupQR
 		mpz_clear(foo);
 	}
 	else
-		mpz_set(g, 0L); // indicates an error
+		mpz_set_ui(g, 0L); // indicates an error
 
 	// Precompute the $g$-table for the fast exponentiation.
 	tmcg_mpz_fpowm_precompute(fpowm_table_g, g, p, mpz_sizeinbase(q, 2L));
